@@ -47,6 +47,18 @@ class FakeSock(object):
         self.accepted.extend(bytes(data[:n]))
         return n
 
+    def sendall(self, data):
+        data = bytes(data)
+        while data:
+            try:
+                n = self.send(data)
+            except BlockingIOError:
+                continue        # a blocking socket waits for room
+            data = data[n:]
+
+    def shutdown(self, how):
+        pass
+
     def close(self):
         pass
 
@@ -74,7 +86,29 @@ class Callbacks(ConnectionCallbacks):
         self.events.append("error")
 
 
+def run_socket_dispatcher(case, prefix):
+    """the other dispatcher (PROP_DISPATCHER = DISPATCHER_SOCKET): a blocking socket, written by the sending thread only"""
+    DS = importlib.import_module("yowsup.layers.network.dispatcher.dispatcher_socket")
+    frames = [bytes([0x41 + i]) * n for i, n in enumerate(case["frames"])]
+    d = DS.SocketConnectionDispatcher(Callbacks())
+    sock = FakeSock([b for b in case["budgets"] if b])      # a blocking socket never answers "would block"
+    d.socket = sock
+    v = []
+    try:
+        for f in frames:
+            d.sendData(f)
+    except Exception as e:
+        v.append(("C11:socket:raises:%s" % type(e).__name__, "sendData raised %r" % (e,), dict(case), None))
+    want, got = b"".join(frames), bytes(sock.accepted)
+    if got != want and not v:
+        v.append(("C11:socket:bytes-lost" if len(got) < len(want) else "C11:socket:bytes-wrong",
+                  "socket dispatcher: the socket received %r, the frames handed to the dispatcher were %r" % (got, want), dict(case), None))
+    return [(1, 0, False)], v, (got,)
+
+
 def run_disp(case, prefix):
+    if case.get("dispatcher") == "socket":
+        return run_socket_dispatcher(case, prefix)
     frames = [bytes([0x41 + i]) * n for i, n in enumerate(case["frames"])]
     cb = Callbacks()
     # locks the dispatcher creates must be locks the scheduler controls
@@ -148,4 +182,7 @@ def cases_for(tier):
     for frames in ([6, 4], [3, 3, 3]):
         for b in budget_menu:
             cases.append({"frames": frames, "budgets": b})
+    for frames in ([6, 4], [3, 3, 3]):
+        for b in budget_menu:
+            cases.append({"frames": frames, "budgets": b, "dispatcher": "socket"})
     return cases
